@@ -418,7 +418,8 @@ def main():
         'wall_s': round(time.time() - t_start, 2),
         'violations': len(viol_unknown),
     }
-    if not replay_mode and not (args.limit or args.only):
+    if not replay_mode and not (args.limit or args.only) and os.path.abspath(REPO) == '/repo':
+        # (runs against a scratch copy through KAWIN_VERIF_REPO validate the monitors; they are not evidence)
         os.makedirs(os.path.join(VERIF, 'evidence'), exist_ok=True)
         with open(os.path.join(VERIF, 'evidence', prop + '.json'), 'w') as f:
             json.dump(ev, f, indent=1)
